@@ -24,6 +24,7 @@ import (
 	"time"
 
 	"github.com/Ptt-official-app/go-pttbbs/cmsys"
+	"github.com/Ptt-official-app/go-pttbbs/ptttype"
 	"github.com/Ptt-official-app/go-pttbbs/verifhook"
 	"verifharness/internal/hx"
 )
@@ -124,6 +125,37 @@ func childMain(file string) {
 			} else {
 				say("appended ok:%d", idx)
 			}
+		case "try": // one contended-or-not GoFlockExNb + GoFunlock on the record file (ptt.doAddRecommendSmartMerge's pattern)
+			fh, err := os.OpenFile(file, os.O_WRONLY, 0o644)
+			if err != nil {
+				say("tried openerr")
+				break
+			}
+			err = cmsys.GoFlockExNb(fh.Fd(), file)
+			if err == nil {
+				_ = cmsys.GoFunlock(fh.Fd(), file)
+				say("tried ok")
+			} else {
+				say("tried err")
+			}
+			fh.Close()
+		case "delete": // cmsys.DeleteRecord shares the file's lock-table key with AppendRecord
+			idx, _ := strconv.Atoi(f[1])
+			err := cmsys.DeleteRecord(file, ptttype.SortIdxInStore(idx), recSize)
+			if err != nil {
+				say("deleted err:%v", strings.ReplaceAll(err.Error(), " ", "_"))
+			} else {
+				say("deleted ok")
+			}
+		case "substitute":
+			idx, _ := strconv.Atoi(f[1])
+			r := pattern(97)
+			err := cmsys.SubstituteRecord(file, &r, recSize, int32(idx))
+			if err != nil {
+				say("substituted err:%v", strings.ReplaceAll(err.Error(), " ", "_"))
+			} else {
+				say("substituted ok")
+			}
 		case "stress": // n goroutines x m appends each, no hooks: for the race detector pass
 			n, _ := strconv.Atoi(f[1])
 			m, _ := strconv.Atoi(f[2])
@@ -181,6 +213,7 @@ type controller struct {
 	blocked  []bool
 	done     []bool
 	errs     []string
+	tries    []string // results of the try-lock calls, in schedule order
 	closed   bool
 }
 
@@ -278,6 +311,9 @@ func (c *controller) release(t int) {
 		grace = 200 * time.Millisecond
 	}
 	if !c.await(t, grace) {
+		if grace >= 5*time.Second {
+			longStalls++
+		}
 		if inSeg1 {
 			c.blocked[t] = true
 			c.state[t] = "blocked"
@@ -357,7 +393,33 @@ func readRecs(file string, n0 int) (string, []string) {
 
 func (c *controller) observe() string {
 	recs, _ := readRecs(c.file, 0)
-	return strings.Join(c.state, " ") + " | " + recs
+	out := strings.Join(c.state, " ") + " | " + recs
+	if len(c.tries) > 0 {
+		out += " | " + strings.Join(c.tries, " ")
+	}
+	return out
+}
+
+// some thread is between append.afterLock and its return from funlock: its descriptor holds the flock
+func (c *controller) flockHeld() bool {
+	for _, st := range c.state {
+		if st == "locked" || st == "seeked" || st == "written" {
+			return true
+		}
+	}
+	return false
+}
+
+// tryLock: process p calls GoFlockExNb on the record file while the flock is held
+func (c *controller) tryLock(p int) {
+	c.send(p, "try")
+	select {
+	case l := <-c.misc:
+		c.tries = append(c.tries, strings.TrimPrefix(l, "tried "))
+	case <-time.After(5 * time.Second):
+		longStalls++
+		c.tries = append(c.tries, "TIMEOUT")
+	}
 }
 
 var run *hx.Run
@@ -375,7 +437,21 @@ func joinInts(xs []int) string {
 
 // runSchedule drives one complete schedule; after every release it records the
 // observed system state as one op (the model replays the same prefix).
+// longStalls counts 5-second waits that ran out. The unchanged code never produces one (a conflict
+// inside a process is an immediate error, a conflict between processes is probed with a short grace);
+// once there have been many the failures are on record and the remaining schedules are skipped so
+// that a run over broken code ends in minutes.
+var longStalls int
+var skippedNoted bool
+
 func runSchedule(bin string, procs []int, n0 int, sched []int, nontrivial bool) {
+	if longStalls > 24 {
+		if !skippedNoted {
+			skippedNoted = true
+			run.Note("more than 24 five-second stalls: remaining schedules skipped (failures recorded above)")
+		}
+		return
+	}
 	dir, _ := os.MkdirTemp("", "verif-c14-")
 	defer os.RemoveAll(dir)
 	file := dir + "/.DIR"
@@ -383,15 +459,28 @@ func runSchedule(bin string, procs []int, n0 int, sched []int, nontrivial bool) 
 	c := newController(procs, file, bin)
 	defer c.close()
 	last := -1
+	var executed []int
 	for k, t := range sched {
-		c.release(t)
-		op := fmt.Sprintf("sched %s %d %s", joinInts(procs), n0, joinInts(sched[:k+1]))
 		label := "prefix"
+		if t >= 100 {
+			// a try-lock by process (t-100)%10: driven only while the flock is held (contended)
+			p := (t - 100) % 10
+			if _, ok := c.children[p]; !ok || !c.flockHeld() {
+				continue
+			}
+			c.tryLock(p)
+			label = "try"
+		} else {
+			c.release(t)
+		}
+		executed = append(executed, t)
+		op := fmt.Sprintf("sched %s %d %s", joinInts(procs), n0, joinInts(executed))
 		if k == len(sched)-1 {
 			label = "complete"
 		}
 		last = run.Op(op, c.observe(), label, nontrivial && k == len(sched)-1)
 	}
+	sched = executed
 	// drain: a release of a thread blocked in flock is a no-op, so a schedule may leave threads
 	// unfinished; keep releasing (lowest thread first) until all have returned.
 	for round := 0; round < 12; round++ {
@@ -479,6 +568,76 @@ func runSchedule(bin string, procs []int, n0 int, sched []int, nontrivial bool) 
 		case <-time.After(5 * time.Second):
 			run.Fail(last, "lock-leak", fmt.Sprintf("an append issued by process %d after all others finished never returned", p))
 		}
+	}
+}
+
+// otherWriters: after DeleteRecord / SubstituteRecord calls with in-range, boundary and out-of-range
+// indices (whatever they return), an append in the same process must succeed: the in-process lock
+// table is released on every path.
+func otherWriters(bin string) {
+	dir, _ := os.MkdirTemp("", "verif-c14w-")
+	defer os.RemoveAll(dir)
+	file := dir + "/.DIR"
+	_ = os.WriteFile(file, bytes.Repeat([]byte{0xEE}, 3*recSize), 0o644)
+	c := newController([]int{0}, file, bin)
+	defer c.close()
+	ask := func(cmd string) string {
+		c.send(0, cmd)
+		select {
+		case l := <-c.misc:
+			return l
+		case <-time.After(15 * time.Second):
+			return "TIMEOUT"
+		}
+	}
+	for _, cmd := range []string{"delete 0", "delete 2", "delete 3", "delete 4", "delete 100", "delete -1", "substitute 1", "substitute 3", "substitute 50", "substitute -1"} {
+		before := ask(cmd)
+		after := ask("append")
+		verdict := "append-ok"
+		if !strings.HasPrefix(after, "appended ok:") {
+			verdict = "append-failed"
+		}
+		i := run.Op("after "+strings.ReplaceAll(cmd, " ", ":"), verdict, "otherwriter", true)
+		if verdict != "append-ok" {
+			run.Fail(i, "lock-leak", fmt.Sprintf("after `%s` (%s) an append in the same process failed: %s", cmd, before, after))
+		}
+	}
+}
+
+// longHold: process 0 takes the lock and keeps it for 12 s; process 1's appender, released into
+// its lock acquisition meanwhile, must neither return nor reach append.afterLock before the holder
+// is released.
+func longHold(bin string) {
+	dir, _ := os.MkdirTemp("", "verif-c14l-")
+	defer os.RemoveAll(dir)
+	file := dir + "/.DIR"
+	_ = os.WriteFile(file, bytes.Repeat([]byte{0xEE}, recSize), 0o644)
+	c := newController([]int{0, 1}, file, bin)
+	defer c.close()
+	c.release(0) // call -> afterOpen
+	c.release(0) // -> afterLock (holds the flock)
+	c.release(1) // call -> afterOpen
+	c.send(1, "go 1")
+	c.started[1] = true
+	early := c.await(1, 12*time.Second)
+	verdict := "excluded"
+	if early {
+		verdict = "entered:" + c.state[1]
+	}
+	i := run.Op("longhold 12", verdict, "longhold", true)
+	if early {
+		run.Fail(i, "lock:not-exclusive-after-wait", fmt.Sprintf("a second process's append got past the lock (state %q) while the first still held it after 12 s", c.state[1]))
+	} else {
+		c.blocked[1] = true
+		c.state[1] = "blocked"
+	}
+	for k := 0; k < 12 && !(c.done[0] && c.done[1]); k++ {
+		c.release(0)
+		c.release(1)
+	}
+	recs, problems := readRecs(file, 1)
+	if recs != "_,0,1" || len(problems) > 0 {
+		run.Fail(i, "lost-record", fmt.Sprintf("after the long hold the file holds [%s] (%v), expected [_,0,1]; states %v", recs, problems, c.state))
 	}
 }
 
@@ -607,6 +766,50 @@ func main() {
 		}
 	}
 	run.Exhaust = exhaustive && !*raceOnly
+
+	// try-locks (GoFlockExNb) thrown into the schedules: a refused kernel lock must leave the lock
+	// table as it found it, so everything after it — and the final appends — behave as without it.
+	tryCfgs := []cfg{{[]int{0, 1}, 1, 30}, {[]int{0, 0}, 1, 12}}
+	if run.Thorough() {
+		tryCfgs = []cfg{{[]int{0, 1}, 1, 400}, {[]int{0, 0}, 1, 150}, {[]int{0, 0, 1, 1}, 0, 150}}
+	}
+	for _, cf := range tryCfgs {
+		for k := 0; k < cf.sample; k++ {
+			left := make([]int, len(cf.procs))
+			for i := range left {
+				left[i] = 5
+			}
+			var s []int
+			nTry := 0
+			for {
+				var cand []int
+				for t, l := range left {
+					if l > 0 {
+						cand = append(cand, t)
+					}
+				}
+				if len(cand) == 0 {
+					break
+				}
+				if nTry < 9 && r.Intn(3) == 0 {
+					s = append(s, 100+10*nTry+cf.procs[r.Intn(len(cf.procs))])
+					nTry++
+					continue
+				}
+				t := cand[r.Intn(len(cand))]
+				left[t]--
+				s = append(s, t)
+			}
+			runSchedule(bin, cf.procs, cf.n0, s, true)
+		}
+	}
+
+	// the lock table is released on every path of the other writers that share the key
+	otherWriters(bin)
+
+	// a waiter must stay excluded however long the holder keeps the lock (retry loops with a
+	// bounded number of attempts are the classic way to lose this)
+	longHold(bin)
 
 	// stress (no hooks): many goroutines in 2..4 processes append concurrently; P-hat on the final file.
 	stress(bin, run.Thorough())
